@@ -74,13 +74,13 @@ func init() {
 func init() {
 	propMeta["C04"] = Meta{
 		Level: "fault_enumeration",
-		Rule: "The fault space is the finite set of cells (protocol scenario, corrupt party position, message type, recipient for unicasts, leaf of the CBOR encoding at normalised path (first and last instance of repeated positions), operator in {bit flip low/high, replace by the value at the same position of another sender's / the parallel session's message, swap two leaves, increment, truncate, extend, drop, replay of another sender's / the parallel session's / another recipient's whole message}). Cells are derived from the recorded messages of an honest inventory run with the same seed; each evaluation re-runs the scenario (real runners, real echo broadcast, a parallel untouched session) with exactly one cell applied on the corrupt party's outgoing link, a broadcast being altered identically in all copies. The quick tier visits an evenly spread subset per scenario, the thorough tier every cell. Non-trivial = the tamper changed the bytes on the wire. Distinct = distinct cell labels.",
+		Rule: "The fault space is the finite set of cells (protocol scenario in {session setup, Gennaro, Canetti, Lindell22/BIP-340, DKLs23 x2, agree-on-random, redistribution with/without anchor, Lindell17 signing x2, Lindell17 DKG (3-party variant thorough only), Boldyreva x2}, corrupt party position, message type, recipient for unicasts, leaf of the CBOR encoding at normalised path (first and last instance of repeated positions), operator in {bit flip low/high, replace by the value at the same position of another sender's / the parallel session's message, swap two leaves, increment, truncate, extend, drop, replay of another sender's / the parallel session's / another recipient's whole message}). Cells are derived from the recorded messages of an honest inventory run with the same seed; each evaluation re-runs the scenario (real runners, real echo broadcast, a parallel untouched session) with exactly one cell applied on the corrupt party's outgoing link, a broadcast being altered identically in all copies. The quick tier visits an evenly spread subset per scenario, the thorough tier every cell. Non-trivial = the tamper changed the bytes on the wire. Distinct = distinct cell labels.",
 		Assumptions: []string{
 			"binding table: every leaf is treated as bound unless listed as free with a written justification (session round-1 commitment key); operators that only append surplus data are accepted when every party ends with exactly the outputs of the unaltered run (decoding strictness is C12's subject)",
 			"the corrupt party runs honest code; its deviation is applied on the wire, so the deviating party's own later state is consistent with the untampered message",
 			"one fault per run; n=3 (two-party quorums for DKLs23)",
 		},
-		Real: []string{"pkg/mpc/session, dkg/gennaro, dkg/canetti, signatures/schnorr/lindell22, signatures/ecdsa/dkls23 (bbot, softspoken) incl. pkg/ot and pkg/mpc/rvole, aggregators", "pkg/network router, echo broadcast, exchange", "pkg/base/serde decoders, message Validate methods, proofs, commitments"},
+		Real: []string{"pkg/mpc/session, dkg/gennaro, dkg/canetti, signatures/schnorr/lindell22, signatures/ecdsa/dkls23 (bbot, softspoken) incl. pkg/ot and pkg/mpc/rvole, aggregators", "pkg/mpc/aor, pkg/mpc/redistribute (incl. pkg/mpc/zero/hjky), signatures/ecdsa/lindell17 (signing, keygen/dkg, keygen/trusted_dealer) incl. pkg/encryption/paillier and pkg/proofs/paillier, signatures/bls/boldyreva02 (cosigner, aggregator)", "pkg/network router, echo broadcast, exchange", "pkg/base/serde decoders, message Validate methods, proofs, commitments"},
 		Stub: append(append([]string{}, commonStub...), "wire adversary (checks/adversary.go) on one party's outgoing link", "trusted dealer for signing key material"),
 		ExpectedProbes: []string{"detected", "blamed_correctly", "op_flip", "op_set", "op_replaymsg", "op_drop", "op_trunc", "op_extend", "class_bound", "class_free"},
 		CrashIsViolation: true,
@@ -115,7 +115,7 @@ func init() {
 func init() {
 	propMeta["C07"] = Meta{
 		Level: "exploration",
-		Rule: "Each evaluation is one paired replay: a protocol scenario (session setup, Gennaro, Canetti, Lindell22/BIP-340 signing, DKLs23 with either multiplier; real runners, FIFO schedule, parallel second session) is executed twice or more from the same seed with exactly one controlled difference on the randomness seam of one party position: (sensitivity) another protocol-stage stream for that party, the session stage unchanged; (hidden-source) the same party streams and another process-global crypto/rand; (short-read) the same bytes handed out in reads of 1-5 bytes; (reader-failure) the k-th Read call fails, k spread over the calls of the base run; (cross-session) the two sessions of one run compared. The Lindell17 trusted dealer is paired the same way on the dealt shards (ECDSA shares and Paillier moduli). Non-trivial: every pair. Distinct = scenario x sub-check x party position.",
+		Rule: "Each evaluation is one paired replay: a protocol scenario (session setup, Gennaro, Canetti, Lindell22/BIP-340 signing, DKLs23 with either multiplier, agree-on-random, redistribution, Lindell17 signing; real runners, FIFO schedule, parallel second session) is executed twice or more from the same seed with exactly one controlled difference on the randomness seam of one party position: (sensitivity) another protocol-stage stream for that party, the session stage unchanged; (hidden-source) the same party streams and another process-global crypto/rand; (short-read) the same bytes handed out in reads of 1-5 bytes; (reader-failure) the k-th Read call fails, k spread over the calls of the base run; (cross-session) the two sessions of one run compared. The Lindell17 trusted dealer is paired the same way on the dealt shards (ECDSA shares and Paillier moduli). Non-trivial: every pair. Distinct = scenario x sub-check x party position.",
 		Assumptions: []string{"a byte-string leaf of at least 16 bytes in a message of the varied party must change when that party's stream changes, unless it is listed as derived with a justification (session id echoed by Canetti, identity entry of a zero-sharing vector, DKLs23 public-key share)", "secrets that never influence a message or output (e.g. an unused mask) are invisible to this check"},
 		Real: []string{"pkg/mpc/session, dkg/gennaro, dkg/canetti, signatures/schnorr/lindell22, signatures/ecdsa/dkls23 (bbot, softspoken), pkg/ot, pkg/mpc/rvole, commitments, proofs", "signatures/ecdsa/lindell17/keygen/trusted_dealer, pkg/encryption/paillier key generation, pkg/base/nt prime generation"},
 		Stub: append(append([]string{}, commonStub...), "process-global crypto/rand (testing/cryptotest.SetGlobalRandom)"),
